@@ -276,7 +276,13 @@ DT_STRS = ['2024-01-01', '2024-02-29', '2023-02-29', '1970-01-01T00:00:00Z', '19
            '-292275055-05-17T16:47:04.191Z', '+999999999-12-31', '-999999999-01-01', '2024-01-01T24:00:00Z', '2024-01-01T23:60:00Z',
            '2024-01-01T23:59:60Z', '2024-01-01T00:00:00.1Z', '2024-01-01T00:00:00.1234Z', '2024-01-01T00:00:00+2400',
            '2024-01-01T00:00:00+0060', '2024-01-01T00:00:00+01:00', '2024-1-01', '24-01-01', '2024-01-01 00:00:00Z',
-           '2024-01-01T00:00:00z', '1900-02-29', '2000-02-29', '2024-04-31', '', 'T', '2024-01-01T', '2024-01-01T00:00:00.000+0000x']
+           '2024-01-01T00:00:00z', '1900-02-29',
+           # the int64 range ends inside the boundary years: date-only and timed spellings on both sides of the boundary day
+           '+292278994-08-17', '+292278994-08-18', '+292278994-08-16', '+292278994-12-31', '+292278994-01-01', '+292278995-01-01', '+292278993-12-31',
+           '-292275055-05-16', '-292275055-05-17', '-292275055-05-18', '-292275055-05-15', '-292275055-01-01', '-292275055-12-31', '-292275056-12-31',
+           '-292275054-01-01', '+292278994-08-17T00:00:00Z', '+292278994-08-17T07:12:55.807+0001', '+292278994-08-17T07:12:55.807-0001',
+           '+292278994-08-18T00:00:00+2359', '-292275055-05-16T00:00:00Z', '-292275055-05-16T16:47:04.192-0001', '-292275055-05-15T23:59:59-2359',
+           '+292278994-09-01', '+292278994-10-15T12:00:00Z', '-292275055-03-01', '-292275055-02-28T12:00:00Z', '2000-02-29', '2024-04-31', '', 'T', '2024-01-01T', '2024-01-01T00:00:00.000+0000x']
 IP_STRS = ['127.0.0.1', '127.0.0.1/8', '10.0.0.0/24', '224.0.0.1', '224.0.0.0/4', '224.0.0.0/3', '0.0.0.0/0', '255.255.255.255',
            '1.2.3', '1.2.3.4.5', '01.2.3.4', '256.1.1.1', '1.2.3.4/33', '1.2.3.4/', '1.2.3.4/08', '1.2.3.4/+8', '::1', '::', '::1/128',
            'ff00::/8', 'ff00::1', '2001:db8::1', '2001:db8::/32', '1:2:3:4:5:6:7:8', '1:2:3:4:5:6:7:8:9', '1:2:3:4:5:6:7', '::1:2:3:4:5:6:7:8',
